@@ -16,7 +16,24 @@ use std::collections::{BTreeMap, BTreeSet};
 use std::future::Future;
 use std::panic::{catch_unwind, AssertUnwindSafe};
 
-use saito_core::core::consensus::block::{Block, ConsensusValues};
+use std::sync::atomic::{AtomicU64, Ordering};
+use std::sync::Arc;
+use std::time::Duration;
+
+use saito_core::core::consensus::block::{Block, BlockType, ConsensusValues};
+use saito_core::core::consensus::blockchain::Blockchain;
+use saito_core::core::consensus::mempool::Mempool;
+use saito_core::core::consensus::peers::peer_collection::PeerCollection;
+use saito_core::core::consensus_thread::{ConsensusEvent, ConsensusStats, ConsensusThread};
+use saito_core::core::io::network::Network;
+use saito_core::core::io::storage::Storage;
+use saito_core::core::mining_thread::MiningEvent;
+use saito_core::core::process::keep_time::{KeepTime, Timer};
+use saito_core::core::process::process_event::ProcessEvent;
+use saito_core::core::routing_thread::RoutingEvent;
+use saito_core::core::util::configuration::Configuration;
+use tokio::sync::mpsc::Receiver;
+use tokio::sync::RwLock;
 use saito_core::core::consensus::burnfee::BurnFee;
 use saito_core::core::consensus::golden_ticket::GoldenTicket;
 use saito_core::core::consensus::slip::{Slip, SlipType};
@@ -76,6 +93,9 @@ struct RoundSpec {
     /// the second node produces the next block from a transfer of its own making: the tip advances
     /// and the producer's pool stays as it is (after `items`)
     peer_own: bool,
+    /// transactions and tickets arrive as ConsensusEvents and the block is produced by the
+    /// ConsensusThread's timer event instead of direct calls of the mempool / blockchain
+    via_thread: bool,
     /// a second transaction spending an input of a pooled transaction is put straight into
     /// Mempool.transactions (past the intake): Block::create's double-spend detection must fire
     inject_conflict: bool,
@@ -110,6 +130,58 @@ struct RoundResult {
     had_pool: bool,
 }
 
+struct Clock(AtomicU64);
+impl KeepTime for Clock {
+    fn get_timestamp_in_ms(&self) -> u64 {
+        self.0.load(Ordering::SeqCst)
+    }
+}
+
+/// A real ConsensusThread wired as saito-rust/src/main.rs does.  Its blockchain / mempool locks
+/// hold placeholders; for the duration of a call the producer's Blockchain and Mempool are swapped
+/// in, so the thread works on the very state the rest of the harness inspects.
+struct ThreadRig {
+    consensus: ConsensusThread,
+    bc: Arc<RwLock<Blockchain>>,
+    mp: Arc<RwLock<Mempool>>,
+    clock: Arc<Clock>,
+    rx_router: Receiver<RoutingEvent>,
+    rx_miner: Receiver<MiningEvent>,
+    rx_stat: Receiver<String>,
+}
+
+fn new_thread_rig(node: &Node, params: &Params) -> ThreadRig {
+    let wallet = node.wallet_lock.clone();
+    let cfg: Arc<RwLock<dyn Configuration + Send + Sync>> = Arc::new(RwLock::new(node.cfg.clone()));
+    let peers = Arc::new(RwLock::new(PeerCollection::default()));
+    let clock = Arc::new(Clock(AtomicU64::new(1)));
+    let timer = Timer { time_reader: clock.clone(), hasten_multiplier: 1, start_time: 0 };
+    let bc = Arc::new(RwLock::new(Blockchain::new(wallet.clone(), params.genesis_period, params.social_stake, params.social_stake_period)));
+    let mp = Arc::new(RwLock::new(Mempool::new(wallet.clone())));
+    let (tx_router, rx_router) = tokio::sync::mpsc::channel(4096);
+    let (tx_miner, rx_miner) = tokio::sync::mpsc::channel(4096);
+    let (tx_stat, rx_stat) = tokio::sync::mpsc::channel(4096);
+    let consensus = ConsensusThread {
+        mempool_lock: mp.clone(),
+        blockchain_lock: bc.clone(),
+        wallet_lock: wallet.clone(),
+        generate_genesis_block: false,
+        sender_to_router: tx_router,
+        sender_to_miner: tx_miner,
+        block_producing_timer: 0,
+        timer: timer.clone(),
+        network: Network::new(Box::new(MemIo::new(node.disk.clone())), peers, wallet.clone(), cfg.clone(), timer),
+        storage: Storage::new(Box::new(MemIo::new(node.disk.clone()))),
+        stats: ConsensusStats::new(tx_stat.clone()),
+        txs_for_mempool: vec![],
+        stat_sender: tx_stat,
+        config_lock: cfg,
+        produce_blocks_by_timer: true,
+        delete_old_blocks: true,
+    };
+    ThreadRig { consensus, bc, mp, clock, rx_router, rx_miner, rx_stat }
+}
+
 struct Rig {
     rt: Rt,
     prod: Node,
@@ -127,6 +199,12 @@ struct Rig {
     key_blocks: BTreeMap<u64, u64>,
     /// signature of a transaction injected past the intake in this round
     injected: Option<saito_core::core::defs::SaitoSignature>,
+    /// the last own block that both nodes accepted (as handed over) and the model's view of its parent
+    last_ok: Option<(String, Block)>,
+    /// the producer's ConsensusThread
+    thread: ThreadRig,
+    /// this round goes through the ConsensusThread (events, timer) instead of direct calls
+    via_thread: bool,
 }
 
 fn ty_code(t: TransactionType) -> &'static str {
@@ -199,6 +277,7 @@ impl Rig {
             }
         }
         let g = bo(&rt, make_genesis(&prod, 1_000_000, &iss)).unwrap();
+        let thread = new_thread_rig(&prod, params);
         let mut r = Rig {
             rt,
             prod,
@@ -213,6 +292,9 @@ impl Rig {
             history: vec![g.clone()],
             key_blocks: BTreeMap::new(),
             injected: None,
+            last_ok: None,
+            thread,
+            via_thread: false,
         };
         let a = bo(&r.rt, r.prod.add_block(g.clone()));
         let b = bo(&r.rt, r.peer.add_block(g));
@@ -306,10 +388,80 @@ impl Rig {
         c.utxoset_key
     }
 
+    // ------------------------------------------------------------ calls through the ConsensusThread
+    fn thread_swap(&mut self) {
+        let rt = &self.rt;
+        let th = &self.thread;
+        let prod = &mut self.prod;
+        rt.block_on(async {
+            let mut b = th.bc.write().await;
+            std::mem::swap(&mut *b, &mut prod.blockchain);
+            let mut m = th.mp.write().await;
+            std::mem::swap(&mut *m, &mut prod.mempool);
+        });
+    }
+    fn thread_drain(&mut self) {
+        while self.thread.rx_router.try_recv().is_ok() {}
+        while self.thread.rx_miner.try_recv().is_ok() {}
+        while self.thread.rx_stat.try_recv().is_ok() {}
+    }
+    /// ConsensusEvent::NewTransaction, as the routing / verification threads deliver it
+    fn thread_event(&mut self, tx: Transaction) -> Result<(), String> {
+        self.thread_swap();
+        let r = {
+            let rt = &self.rt;
+            let c = &mut self.thread.consensus;
+            catch_unwind(AssertUnwindSafe(|| {
+                rt.block_on(c.process_event(ConsensusEvent::NewTransaction { transaction: tx }));
+            }))
+        };
+        self.thread_swap();
+        self.thread_drain();
+        r.map_err(|e| panic_text(&e))
+    }
+    /// ConsensusThread::bundle_block(ts, false): the replay of the queued transactions, the ticket
+    /// lookup, produce_block, mempool.add_block + add_blocks_from_mempool
+    fn thread_bundle(&mut self, ts: u64) -> Result<(), String> {
+        self.thread_swap();
+        let r = {
+            let rt = &self.rt;
+            let c = &mut self.thread.consensus;
+            catch_unwind(AssertUnwindSafe(|| {
+                rt.block_on(c.bundle_block(ts, false));
+            }))
+        };
+        self.thread_swap();
+        self.thread_drain();
+        r.map_err(|e| panic_text(&e))
+    }
+    /// one timer event of `ms` milliseconds with the node's clock at `now`
+    fn thread_tick(&mut self, now: u64, ms: u64) -> Result<(), String> {
+        self.thread.clock.0.store(now, Ordering::SeqCst);
+        self.thread_swap();
+        let r = {
+            let rt = &self.rt;
+            let c = &mut self.thread.consensus;
+            catch_unwind(AssertUnwindSafe(|| {
+                rt.block_on(c.process_timer_event(Duration::from_millis(ms)));
+            }))
+        };
+        self.thread_swap();
+        self.thread_drain();
+        r.map_err(|e| panic_text(&e))
+    }
+
     /// submits through the real intake; returns whether the transaction is pooled afterwards
     fn submit(&mut self, tx: Transaction) -> bool {
         let sig = tx.signature;
-        bo(&self.rt, self.prod.mempool.add_transaction_if_validates(tx, &self.prod.blockchain));
+        if self.via_thread {
+            // delivered as an event, then taken in by the replay loop of ConsensusThread::bundle_block
+            // (called with the tip's own timestamp, so that nothing is produced yet)
+            let tip_ts = self.tip().timestamp;
+            let _ = self.thread_event(tx);
+            let _ = self.thread_bundle(tip_ts);
+        } else {
+            bo(&self.rt, self.prod.mempool.add_transaction_if_validates(tx, &self.prod.blockchain));
+        }
         self.prod.mempool.transactions.contains_key(&sig)
     }
 
@@ -482,7 +634,11 @@ impl Rig {
             }
         };
         let tx = bo(&self.rt, Wallet::create_golden_ticket_transaction(gt, &pk, &sk));
-        bo(&self.rt, self.prod.mempool.add_golden_ticket(tx));
+        if self.via_thread {
+            let _ = self.thread_event(tx);
+        } else {
+            bo(&self.rt, self.prod.mempool.add_golden_ticket(tx));
+        }
         self.stat(&format!("golden-ticket-pooled:{:?}", spec));
         log.push(format!("{{\"op\":\"golden-ticket\",\"kind\":\"{:?}\",\"tip_difficulty\":{}}}", spec, tip.difficulty));
     }
@@ -513,6 +669,266 @@ impl Rig {
             self.stat("pool-item:conflicting-spend-injected-past-the-intake");
             log.push(format!("{{\"op\":\"conflicting-spend-injected-into-Mempool.transactions\",\"input\":\"{}:{}:{} amount {}\"}}", sl.block_id, sl.tx_ordinal, sl.slip_index, sl.amount));
         }
+    }
+
+    // ------------------------------------------------------------ perturbed copies of an accepted block
+    /// The last accepted own block, with ONE thing changed and re-signed by the producer, is offered
+    /// to a third node that holds the chain up to its parent: it must be rejected (and the model's
+    /// node_accepts, evaluated on the same block with the consensus values that node computes, must
+    /// reject it as well).  Finally the unchanged block must be accepted by that node.
+    fn perturb_subround(&mut self, rng: &mut Rng, count: usize) -> (Vec<String>, Vec<(String, Option<&'static str>)>, Vec<String>) {
+        let mut coq = vec![];
+        let mut findings = vec![];
+        let mut log = vec![];
+        let (view, good) = match &self.last_ok {
+            Some(x) => x.clone(),
+            None => return (coq, findings, log),
+        };
+        if self.history.last().map(|b| b.hash) != Some({
+            let mut g = good.clone();
+            let _ = g.generate();
+            g.hash
+        }) {
+            return (coq, findings, log);
+        }
+        let mut scratch = Node::new(&self.params, 9);
+        for b in &self.history[..self.history.len() - 1] {
+            if bo(&self.rt, scratch.add_block(b.clone())) != AddClass::OnChain {
+                self.stat("perturb:replay-failed");
+                return (coq, findings, log);
+            }
+        }
+        let parent = scratch.blockchain.get_latest_block().unwrap().clone();
+        let sk = self.prod.sk;
+        let has = |b: &Block, t: TransactionType| b.transactions.iter().position(|x| x.transaction_type == t);
+        // the catalogue: (name, edit); an edit returns false if it does not apply to this block
+        let n_kinds = 58usize;
+        let mut chosen: Vec<usize> = vec![];
+        for _ in 0..(count * 4) {
+            let k = rng.below(n_kinds as u64) as usize;
+            if !chosen.contains(&k) {
+                chosen.push(k);
+            }
+        }
+        let mut done = 0usize;
+        for k in chosen {
+            if done >= count {
+                break;
+            }
+            let mut b = good.clone();
+            let mut txs_changed = false;
+            let name: String;
+            macro_rules! fields {
+                ($($i:expr => $f:ident),*) => {
+                    match k % 22 { $($i => { if k < 22 { b.$f = b.$f.wrapping_add(1); Some(format!("{} + 1", stringify!($f))) } else if b.$f > 0 { b.$f -= 1; Some(format!("{} - 1", stringify!($f))) } else { None } })*, _ => None }
+                };
+            }
+            if k < 44 {
+                let r = fields!(0 => total_fees, 1 => total_fees_new, 2 => total_fees_atr, 3 => total_fees_cumulative, 4 => avg_total_fees,
+                    5 => avg_total_fees_new, 6 => avg_total_fees_atr, 7 => total_payout_routing, 8 => total_payout_mining,
+                    9 => total_payout_treasury, 10 => total_payout_graveyard, 11 => total_payout_atr, 12 => avg_payout_routing,
+                    13 => avg_payout_mining, 14 => avg_payout_treasury, 15 => avg_payout_graveyard, 16 => avg_payout_atr,
+                    17 => avg_fee_per_byte, 18 => fee_per_byte, 19 => avg_nolan_rebroadcast_per_block, 20 => burnfee, 21 => difficulty);
+                match r {
+                    Some(nm) => name = nm,
+                    None => continue,
+                }
+            } else {
+                match k {
+                    44 => {
+                        b.treasury += 1;
+                        name = "treasury + 1".to_string();
+                    }
+                    45 => {
+                        b.graveyard += 1;
+                        name = "graveyard + 1".to_string();
+                    }
+                    46 => {
+                        b.previous_block_unpaid += 1;
+                        name = "previous_block_unpaid + 1".to_string();
+                    }
+                    47 => {
+                        b.id += 1;
+                        name = "id + 1".to_string();
+                    }
+                    48 => {
+                        if b.treasury == 0 {
+                            continue;
+                        }
+                        b.treasury -= 1;
+                        name = "treasury - 1".to_string();
+                    }
+                    49 => match has(&b, TransactionType::Fee) {
+                        Some(i) => {
+                            b.transactions.remove(i);
+                            txs_changed = true;
+                            name = "fee transaction dropped".to_string();
+                        }
+                        None => continue,
+                    },
+                    50 => match b.transactions.iter().rposition(|x| x.transaction_type == TransactionType::ATR) {
+                        Some(i) => {
+                            b.transactions.remove(i);
+                            txs_changed = true;
+                            name = "last rebroadcast dropped".to_string();
+                        }
+                        None => continue,
+                    },
+                    51 => match has(&b, TransactionType::ATR) {
+                        Some(i) => {
+                            b.transactions[i].to[0].amount += 1;
+                            txs_changed = true;
+                            name = "rebroadcast output + 1".to_string();
+                        }
+                        None => continue,
+                    },
+                    52 => match has(&b, TransactionType::Fee) {
+                        Some(i) if !b.transactions[i].to.is_empty() => {
+                            b.transactions[i].to[0].amount += 1;
+                            txs_changed = true;
+                            name = "fee transaction output + 1".to_string();
+                        }
+                        _ => continue,
+                    },
+                    53 => match has(&b, TransactionType::GoldenTicket) {
+                        Some(i) => {
+                            b.transactions.remove(i);
+                            txs_changed = true;
+                            name = "golden ticket dropped, fee transaction kept".to_string();
+                        }
+                        None => continue,
+                    },
+                    54 => {
+                        // a second spend of an input the block already spends
+                        let cand = b.transactions.iter().find(|x| x.transaction_type == TransactionType::Normal && !x.from.is_empty() && x.from[0].amount > 0).map(|x| x.from[0].clone());
+                        match cand {
+                            Some(sl) => match self.keys.iter().position(|(pk, _)| *pk == sl.public_key) {
+                                Some(owner) => {
+                                    let mut tx = self.build_transfer(&sl, owner, 21, 0);
+                                    tx.generate(&self.prod.pk, 0, 0);
+                                    let at = b.transactions.iter().position(|x| x.transaction_type == TransactionType::ATR || x.transaction_type == TransactionType::Fee).unwrap_or(b.transactions.len());
+                                    b.transactions.insert(at, tx);
+                                    txs_changed = true;
+                                    name = "second spend of an input of the block".to_string();
+                                }
+                                None => continue,
+                            },
+                            None => continue,
+                        }
+                    }
+                    55 => match has(&b, TransactionType::BlockStake) {
+                        Some(i) if self.params.social_stake > 0 => {
+                            b.transactions.remove(i);
+                            txs_changed = true;
+                            name = "staking transaction dropped".to_string();
+                        }
+                        _ => continue,
+                    },
+                    56 => match has(&b, TransactionType::ATR) {
+                        Some(i) => {
+                            let t = b.transactions[i].clone();
+                            b.transactions.insert(i, t);
+                            txs_changed = true;
+                            name = "rebroadcast doubled".to_string();
+                        }
+                        None => continue,
+                    },
+                    _ => {
+                        if b.previous_block_unpaid == 0 {
+                            continue;
+                        }
+                        b.previous_block_unpaid -= 1;
+                        name = "previous_block_unpaid - 1".to_string();
+                    }
+                }
+            }
+            if txs_changed {
+                b.merkle_root = b.generate_merkle_root(false, false);
+            }
+            resign(&mut b, &sk);
+            // what the third node computes for this block
+            let mut fin = b.clone();
+            let _ = fin.generate();
+            let cv = bo(&self.rt, fin.generate_consensus_values(&scratch.blockchain, &scratch.storage, &scratch.cfg));
+            let cv_coq = self.coq_cv(&cv);
+            let abs: Vec<Atx> = fin.transactions.iter().map(|t| self.atx(t)).collect();
+            let mut valid_tbl: Vec<(u64, bool)> = vec![];
+            let mut gt_tbl: Vec<(u64, bool)> = vec![];
+            for (t, a) in fin.transactions.iter().zip(abs.iter()) {
+                if !valid_tbl.iter().any(|(i, _)| *i == a.id) {
+                    valid_tbl.push((a.id, t.validate(&scratch.blockchain.utxoset, &scratch.blockchain, true)));
+                }
+                if a.ty == TransactionType::GoldenTicket {
+                    gt_tbl.push((a.id, gt_valid(&t.data, &parent)));
+                }
+            }
+            let ids: Vec<u64> = abs.iter().map(|a| a.id).collect();
+            let mr_real = fin.generate_merkle_root(false, false);
+            let mroot_tbl = format!("[({}, {})]", gal::nlist(&ids), self.it.get(&mr_real));
+            let signed = saito_core::core::util::crypto::verify_signature(&fin.pre_hash, &fin.signature, &fin.creator);
+            let econ = [
+                fin.total_fees, fin.total_fees_new, fin.total_fees_atr, fin.total_fees_cumulative, fin.avg_total_fees,
+                fin.avg_total_fees_new, fin.avg_total_fees_atr, fin.total_payout_routing, fin.total_payout_mining,
+                fin.total_payout_treasury, fin.total_payout_graveyard, fin.total_payout_atr, fin.avg_payout_routing,
+                fin.avg_payout_mining, fin.avg_payout_treasury, fin.avg_payout_graveyard, fin.avg_payout_atr,
+                fin.avg_fee_per_byte, fin.fee_per_byte, fin.avg_nolan_rebroadcast_per_block, fin.burnfee, fin.difficulty,
+            ];
+            let block_coq = format!(
+                "mkB {} {} {} {} {} {} {} (mkE {}) {} {} {} {} {} {}",
+                fin.id,
+                fin.timestamp,
+                self.it.get(&fin.previous_block_hash),
+                self.it.get(&fin.creator.to_vec()),
+                fin.previous_block_unpaid,
+                fin.treasury,
+                fin.graveyard,
+                econ.iter().map(|x| x.to_string()).collect::<Vec<_>>().join(" "),
+                gal::list(&abs.iter().map(|a| format!("({})", a.coq)).collect::<Vec<_>>()),
+                self.it.get(&fin.merkle_root),
+                gal::boolean(signed),
+                fin.total_work,
+                fin.total_rebroadcast_slips,
+                self.it.get(&fin.rebroadcast_hash)
+            );
+            let r = {
+                let rt = &self.rt;
+                let sc = &mut scratch;
+                let bb = b.clone();
+                catch_unwind(AssertUnwindSafe(|| rt.block_on(sc.add_block(bb)))).unwrap_or(AddClass::Panicked)
+            };
+            self.key_blocks.clear();
+            self.stat(&format!("perturbed-block:{}", if r == AddClass::Invalid { "rejected" } else { "NOT-rejected" }));
+            self.stat(&format!("perturbation:{}", name));
+            log.push(format!("{{\"perturbation\":{},\"third_node\":\"{:?}\"}}", jstr(&name), r));
+            if r == AddClass::Panicked {
+                findings.push((format!("the third node panicked on the accepted block {} with: {}", good.id, name), None));
+                return (coq, findings, log);
+            }
+            if r != AddClass::Invalid {
+                findings.push((format!("block {} with [{}] (re-signed by its producer) was not rejected by a node holding its parent: {:?}", good.id, name, r), None));
+            }
+            coq.push(format!(
+                "(mkVC ({}) ({}) ({}) {} {} {} {})",
+                view,
+                block_coq,
+                cv_coq,
+                gal::list(&valid_tbl.iter().map(|(i, b)| format!("({}, {})", i, gal::boolean(*b))).collect::<Vec<_>>()),
+                gal::list(&gt_tbl.iter().map(|(i, b)| format!("({}, {})", i, gal::boolean(*b))).collect::<Vec<_>>()),
+                mroot_tbl,
+                add_code(&r)
+            ));
+            done += 1;
+            if r != AddClass::Invalid {
+                // the node moved: stop here
+                return (coq, findings, log);
+            }
+        }
+        // the unchanged block: the third node is a validator like any other
+        let r = bo(&self.rt, scratch.add_block(good.clone()));
+        if r != AddClass::OnChain {
+            findings.push((format!("the unchanged block {} is not accepted by the third node after the perturbed copies: {:?}", good.id, r), None));
+        }
+        (coq, findings, log)
     }
 
     // ------------------------------------------------------------ blocks of other producers
@@ -778,6 +1194,13 @@ impl Rig {
     fn exec_round(&mut self, spec: &RoundSpec, rng: &mut Rng) -> RoundResult {
         let mut log: Vec<String> = vec![];
         let mut findings: Vec<(String, Option<&'static str>)> = vec![];
+        self.via_thread = spec.via_thread;
+        if spec.via_thread {
+            self.stat("path:consensus-thread");
+            log.push("{\"op\":\"round-through-ConsensusThread\"}".to_string());
+        } else {
+            self.stat("path:direct-calls");
+        }
         for item in &spec.items {
             self.apply_item(item, rng, &mut log);
         }
@@ -949,8 +1372,57 @@ impl Rig {
             .flat_map(|t| t.from.iter().filter(|s| s.amount > 0 && src > 0 && s.block_id == src).map(|s| s.amount))
             .collect();
 
-        // ---- the real bundle_block, exactly as ConsensusThread::produce_block calls it
-        let bundled = {
+        // ---- the real bundle_block: exactly as ConsensusThread::produce_block calls it, or -- in a
+        // round through the thread -- by the thread's own timer event
+        let mut thread_added = false;
+        let mut thread_rejected = false;
+        let bundled: Result<Option<Block>, Box<dyn std::any::Any + Send>> = if self.via_thread {
+            let created0 = self.thread.consensus.stats.blocks_created.total;
+            self.thread.consensus.block_producing_timer = 0;
+            let mut res: Result<(), String> = Ok(());
+            for k in 0..3 {
+                res = self.thread_tick(ts, 400);
+                if res.is_err() {
+                    break;
+                }
+                if k < 2 && (self.thread.consensus.stats.blocks_created.total != created0 || self.prod.blockchain.get_latest_block_hash() != tip.hash) {
+                    findings.push((format!("the ConsensusThread produced after {} ms of timer events (BLOCK_PRODUCING_TIMER is 1000)", 400 * (k + 1)), None));
+                }
+            }
+            self.via_thread = false;
+            match res {
+                Err(msg) => Err(Box::new(msg) as Box<dyn std::any::Any + Send>),
+                Ok(()) => {
+                    let created = self.thread.consensus.stats.blocks_created.total - created0;
+                    let new_tip = self.prod.blockchain.get_latest_block_hash();
+                    if created == 0 {
+                        if new_tip != tip.hash {
+                            findings.push(("the tip moved although the ConsensusThread created no block".to_string(), None));
+                        }
+                        Ok(None)
+                    } else if new_tip != tip.hash {
+                        // the producer has added its block already: a clean copy (through the wire format)
+                        let stored = self.prod.blockchain.get_latest_block().unwrap();
+                        let raw = stored.serialize_for_net(BlockType::Full);
+                        match Block::deserialize_from_net(&raw) {
+                            Ok(mut clean) => {
+                                let _ = clean.generate();
+                                clean.cv = stored.cv.clone();
+                                thread_added = true;
+                                Ok(Some(clean))
+                            }
+                            Err(_) => {
+                                findings.push(("the produced block does not decode from its own wire format".to_string(), None));
+                                Ok(None)
+                            }
+                        }
+                    } else {
+                        thread_rejected = true;
+                        Ok(None)
+                    }
+                }
+            }
+        } else {
             let rt = &self.rt;
             let prod = &mut self.prod;
             let gt_arg = gt_tx.clone();
@@ -958,6 +1430,7 @@ impl Rig {
                 rt.block_on(prod.mempool.bundle_block(&prod.blockchain, ts, gt_arg, &prod.cfg, &prod.storage))
             }))
         };
+        let mut skip_model = false;
 
         let mut expected: Vec<Vec<u64>>;
         let mut cv_c = "mkCv econ0 [] 0 0 None".to_string();
@@ -985,7 +1458,30 @@ impl Rig {
             Ok(None) => {
                 // which of the three ways out?
                 let pool_now = self.prod.mempool.transactions.len();
-                if !gate_open {
+                if thread_rejected {
+                    // the thread produced a block and its own add_block refused it; the block is gone
+                    outcome = Outcome::Rejected;
+                    expected = vec![vec![77]];
+                    skip_model = true;
+                    let what = format!("the ConsensusThread produced a block on tip {} and rejected it itself (the block is not observable)", tip.id);
+                    let mut causes: Vec<&'static str> = vec![];
+                    if pool_has_issuance {
+                        causes.push(K_ISSUANCE);
+                    }
+                    if !aged_pool.is_empty() {
+                        causes.push(K_AGED);
+                    }
+                    if gt_zero_key {
+                        causes.push(K_ZEROGT);
+                    }
+                    if causes.is_empty() {
+                        findings.push((what, None));
+                    } else {
+                        for c in causes {
+                            findings.push((what.clone(), Some(c)));
+                        }
+                    }
+                } else if !gate_open {
                     outcome = Outcome::GateClosed;
                     expected = vec![vec![1]];
                     if pool_now != pool_txs.len() {
@@ -1230,6 +1726,16 @@ impl Rig {
                     Some(t) => !gt_valid(&t.data, &tip),
                     None => false,
                 };
+                if gt_eff.is_some() != block_gt.is_some() {
+                    findings.push((
+                        format!(
+                            "the pool {} a ticket for the tip that passes the screen, the produced block {} a golden ticket",
+                            if gt_eff.is_some() { "holds" } else { "does not hold" },
+                            if block_gt.is_some() { "carries" } else { "does not carry" }
+                        ),
+                        None,
+                    ));
+                }
                 let unpaid_expected = if block_gt.is_some() { 0 } else { tip.total_fees };
                 if fin.previous_block_unpaid != unpaid_expected {
                     diffs.push(format!("previous_block_unpaid: header {} / expected {}", fin.previous_block_unpaid, unpaid_expected));
@@ -1253,7 +1759,9 @@ impl Rig {
                     .any(|t| t.transaction_type == TransactionType::ATR && !t.validate(&self.peer.blockchain.utxoset, &self.peer.blockchain, true));
                 // --- offer to both nodes
                 let mut supply_panic = [false, false];
-                let r1 = {
+                let r1 = if thread_added {
+                    AddClass::OnChain
+                } else {
                     let rt = &self.rt;
                     let prod = &mut self.prod;
                     let b = pristine.clone();
@@ -1334,6 +1842,7 @@ impl Rig {
                     }
                 } else {
                     self.history.push(pristine.clone());
+                    self.last_ok = Some((view.clone(), pristine.clone()));
                     if !diffs.is_empty() {
                         findings.push((format!("block accepted although header and recomputed values differ: {:?}", diffs), None));
                     }
@@ -1469,7 +1978,7 @@ impl Rig {
         if self.debug {
             eprintln!("{}", desc);
         }
-        RoundResult { outcome, coq, desc, findings, had_pool }
+        RoundResult { outcome, coq: if skip_model { String::new() } else { coq }, desc, findings, had_pool }
     }
 }
 
@@ -1523,6 +2032,7 @@ struct Plan {
     target_blocks: u64,
     /// percentage of rounds with a hostile pool item / ticket / timestamp
     adversarial: u64,
+    thorough: bool,
 }
 
 fn pick_fee(rng: &mut Rng) -> u64 {
@@ -1640,6 +2150,7 @@ fn random_spec(rig: &Rig, plan: &Plan, rng: &mut Rng, round: usize) -> RoundSpec
     let _ = round;
     // other producers: the second node confirms the pool, or a two-block branch replaces the tip
     let inject_conflict = rng.chance(1, 40);
+    let via_thread = rng.chance(1, 6);
     let mut peer_block = false;
     let mut peer_own = false;
     let mut fork = false;
@@ -1660,7 +2171,7 @@ fn random_spec(rig: &Rig, plan: &Plan, rng: &mut Rng, round: usize) -> RoundSpec
             _ => {}
         }
     }
-    RoundSpec { inject_conflict, peer_own, peer_block, fork, items2, items, gt, gap, label }
+    RoundSpec { via_thread, inject_conflict, peer_own, peer_block, fork, items2, items, gt, gap, label }
 }
 
 fn scripted_spec(rig: &Rig, plan: &Plan, round: usize) -> Option<RoundSpec> {
@@ -1676,12 +2187,12 @@ fn scripted_spec(rig: &Rig, plan: &Plan, round: usize) -> Option<RoundSpec> {
         // the payout multiplier: large fees, tiny outputs looping, ticket every other block
         0 => {
             let items = (2..6usize).map(|p| Item::Transfer { payer: p, fee: 20_000, hops: 1, biggest: true }).collect();
-            Some(RoundSpec { inject_conflict: false, peer_own: false, peer_block: false, fork: false, items2: vec![], items, gt: if round % 2 == 1 { GtSpec::Valid } else { GtSpec::None }, gap: big, label: "dust-profile".to_string() })
+            Some(RoundSpec { via_thread: false, inject_conflict: false, peer_own: false, peer_block: false, fork: false, items2: vec![], items, gt: if round % 2 == 1 { GtSpec::Valid } else { GtSpec::None }, gap: big, label: "dust-profile".to_string() })
         }
         // an invalid golden ticket once the difficulty is positive
         1 => {
             let gt = if tip.difficulty >= 2 { GtSpec::Invalid } else { GtSpec::Valid };
-            Some(RoundSpec { inject_conflict: false, peer_own: false, peer_block: false, fork: false, items2: vec![], items: plain_items, gt, gap: big, label: if gt == GtSpec::Invalid { "invalid-golden-ticket".to_string() } else { "warm-up".to_string() } })
+            Some(RoundSpec { via_thread: false, inject_conflict: false, peer_own: false, peer_block: false, fork: false, items2: vec![], items: plain_items, gt, gap: big, label: if gt == GtSpec::Invalid { "invalid-golden-ticket".to_string() } else { "warm-up".to_string() } })
         }
         // issuance-typed transaction in the pool
         2 => {
@@ -1689,7 +2200,7 @@ fn scripted_spec(rig: &Rig, plan: &Plan, round: usize) -> Option<RoundSpec> {
             if round == 2 {
                 items.push(Item::Issuance);
             }
-            Some(RoundSpec { inject_conflict: false, peer_own: false, peer_block: false, fork: false, items2: vec![], items, gt: if round % 2 == 1 { GtSpec::Valid } else { GtSpec::None }, gap: big, label: "issuance".to_string() })
+            Some(RoundSpec { via_thread: false, inject_conflict: false, peer_own: false, peer_block: false, fork: false, items2: vec![], items, gt: if round % 2 == 1 { GtSpec::Valid } else { GtSpec::None }, gap: big, label: "issuance".to_string() })
         }
         // timestamp not after the tip's (bundle_block must decline, not panic)
         3 => {
@@ -1698,7 +2209,7 @@ fn scripted_spec(rig: &Rig, plan: &Plan, round: usize) -> Option<RoundSpec> {
                 3 => -1000,
                 _ => big,
             };
-            Some(RoundSpec { inject_conflict: false, peer_own: false, peer_block: false, fork: false, items2: vec![], items: plain_items, gt: if round % 2 == 1 { GtSpec::Valid } else { GtSpec::None }, gap, label: "timestamp-order".to_string() })
+            Some(RoundSpec { via_thread: false, inject_conflict: false, peer_own: false, peer_block: false, fork: false, items2: vec![], items: plain_items, gt: if round % 2 == 1 { GtSpec::Valid } else { GtSpec::None }, gap, label: "timestamp-order".to_string() })
         }
         // a pooled transaction spends an output that the next block rebroadcasts
         4 => {
@@ -1706,17 +2217,17 @@ fn scripted_spec(rig: &Rig, plan: &Plan, round: usize) -> Option<RoundSpec> {
             if rig.rebroadcast_source() > 0 && round % 3 == 0 {
                 items.push(Item::Clash { payer: 5, fee: 500 });
             }
-            Some(RoundSpec { inject_conflict: false, peer_own: false, peer_block: false, fork: false, items2: vec![], items, gt: if round % 2 == 1 { GtSpec::Valid } else { GtSpec::None }, gap: big, label: "rebroadcast-clash".to_string() })
+            Some(RoundSpec { via_thread: false, inject_conflict: false, peer_own: false, peer_block: false, fork: false, items2: vec![], items, gt: if round % 2 == 1 { GtSpec::Valid } else { GtSpec::None }, gap: big, label: "rebroadcast-clash".to_string() })
         }
         // staking on, window of 3: the producer's own staking transaction
-        5 => Some(RoundSpec { inject_conflict: false, peer_own: false, peer_block: false, fork: false, items2: vec![], items: plain_items, gt: if round % 2 == 1 { GtSpec::Valid } else { GtSpec::None }, gap: big, label: "staking".to_string() }),
+        5 => Some(RoundSpec { via_thread: false, inject_conflict: false, peer_own: false, peer_block: false, fork: false, items2: vec![], items: plain_items, gt: if round % 2 == 1 { GtSpec::Valid } else { GtSpec::None }, gap: big, label: "staking".to_string() }),
         // staking on, BlockStake-typed transaction from a peer
         6 => {
             let mut items = plain_items;
             if round == 2 {
                 items.push(Item::ForeignStake { payer: 5 });
             }
-            Some(RoundSpec { inject_conflict: false, peer_own: false, peer_block: false, fork: false, items2: vec![], items, gt: if round % 2 == 1 { GtSpec::Valid } else { GtSpec::None }, gap: big, label: "foreign-stake".to_string() })
+            Some(RoundSpec { via_thread: false, inject_conflict: false, peer_own: false, peer_block: false, fork: false, items2: vec![], items, gt: if round % 2 == 1 { GtSpec::Valid } else { GtSpec::None }, gap: big, label: "foreign-stake".to_string() })
         }
         // somebody else's block empties the pool, then a transaction with little work arrives and the
         // producer is polled inside the work-gated window
@@ -1727,6 +2238,7 @@ fn scripted_spec(rig: &Rig, plan: &Plan, round: usize) -> Option<RoundSpec> {
                     peer_block: true,
                     peer_own: false,
                     inject_conflict: false,
+                    via_thread: false,
                     fork: false,
                     items2: vec![Item::Transfer { payer: 4, fee: 30, hops: 1, biggest: false }],
                     gt: GtSpec::None,
@@ -1734,7 +2246,7 @@ fn scripted_spec(rig: &Rig, plan: &Plan, round: usize) -> Option<RoundSpec> {
                     label: "peer-block-empties-pool".to_string(),
                 })
             } else {
-                Some(RoundSpec { inject_conflict: false, peer_own: false, peer_block: false, fork: false, items2: vec![], items: plain_items, gt: if round % 2 == 1 { GtSpec::Valid } else { GtSpec::None }, gap: big, label: "warm-up".to_string() })
+                Some(RoundSpec { via_thread: false, inject_conflict: false, peer_own: false, peer_block: false, fork: false, items2: vec![], items: plain_items, gt: if round % 2 == 1 { GtSpec::Valid } else { GtSpec::None }, gap: big, label: "warm-up".to_string() })
             }
         }
         // a reorganisation whose FIRST block spends the input of a pooled transaction
@@ -1745,6 +2257,7 @@ fn scripted_spec(rig: &Rig, plan: &Plan, round: usize) -> Option<RoundSpec> {
                     peer_block: false,
                     peer_own: false,
                     inject_conflict: false,
+                    via_thread: false,
                     fork: true,
                     items2: vec![Item::Transfer { payer: 2, fee: 300, hops: 1, biggest: false }],
                     gt: GtSpec::Valid,
@@ -1752,7 +2265,7 @@ fn scripted_spec(rig: &Rig, plan: &Plan, round: usize) -> Option<RoundSpec> {
                     label: "fork-invalidates-pooled-tx".to_string(),
                 })
             } else {
-                Some(RoundSpec { inject_conflict: false, peer_own: false, peer_block: false, fork: false, items2: vec![], items: plain_items, gt: if round % 2 == 1 { GtSpec::Valid } else { GtSpec::None }, gap: big, label: "warm-up".to_string() })
+                Some(RoundSpec { via_thread: false, inject_conflict: false, peer_own: false, peer_block: false, fork: false, items2: vec![], items: plain_items, gt: if round % 2 == 1 { GtSpec::Valid } else { GtSpec::None }, gap: big, label: "warm-up".to_string() })
             }
         }
         // the only routing work of the pool sits in a transaction whose input leaves the window while
@@ -1760,9 +2273,9 @@ fn scripted_spec(rig: &Rig, plan: &Plan, round: usize) -> Option<RoundSpec> {
         10 => {
             if tip.id + 1 > plan.gp + 1 && round % 2 == 0 {
                 let items = vec![Item::EdgeSpend { payer: 2, fee: 60_000, dust: false }, Item::Transfer { payer: 4, fee: 0, hops: 0, biggest: false }];
-                Some(RoundSpec { inject_conflict: false, peer_own: true, peer_block: false, fork: false, items2: vec![], items, gt: GtSpec::None, gap: (hb + hb / 2) as i64, label: "pooled-input-ages-and-carried-the-work".to_string() })
+                Some(RoundSpec { via_thread: false, inject_conflict: false, peer_own: true, peer_block: false, fork: false, items2: vec![], items, gt: GtSpec::None, gap: (hb + hb / 2) as i64, label: "pooled-input-ages-and-carried-the-work".to_string() })
             } else {
-                Some(RoundSpec { inject_conflict: false, peer_own: false, peer_block: false, fork: false, items2: vec![], items: plain_items, gt: if round % 2 == 1 { GtSpec::Valid } else { GtSpec::None }, gap: big, label: "warm-up".to_string() })
+                Some(RoundSpec { via_thread: false, inject_conflict: false, peer_own: false, peer_block: false, fork: false, items2: vec![], items: plain_items, gt: if round % 2 == 1 { GtSpec::Valid } else { GtSpec::None }, gap: big, label: "warm-up".to_string() })
             }
         }
         // a tiny output is spent by a transaction that is still pooled when the output leaves the window
@@ -1771,21 +2284,35 @@ fn scripted_spec(rig: &Rig, plan: &Plan, round: usize) -> Option<RoundSpec> {
             items.push(Item::MakeDust { payer: 5 });
             if tip.id + 1 > plan.gp + 2 && round % 3 == 0 {
                 items.push(Item::EdgeSpend { payer: 5, fee: 10, dust: true });
-                Some(RoundSpec { inject_conflict: false, peer_own: true, peer_block: false, fork: false, items2: vec![], items, gt: GtSpec::None, gap: big, label: "pooled-dust-input-ages".to_string() })
+                Some(RoundSpec { via_thread: false, inject_conflict: false, peer_own: true, peer_block: false, fork: false, items2: vec![], items, gt: GtSpec::None, gap: big, label: "pooled-dust-input-ages".to_string() })
             } else {
-                Some(RoundSpec { inject_conflict: false, peer_own: false, peer_block: false, fork: false, items2: vec![], items, gt: if round % 2 == 1 { GtSpec::Valid } else { GtSpec::None }, gap: big, label: "warm-up".to_string() })
+                Some(RoundSpec { via_thread: false, inject_conflict: false, peer_own: false, peer_block: false, fork: false, items2: vec![], items, gt: if round % 2 == 1 { GtSpec::Valid } else { GtSpec::None }, gap: big, label: "warm-up".to_string() })
             }
         }
         // a double spend inside the pool (injected past the intake): Block::create must fail and
         // hand the pool back
         15 => {
             let inject = round == 2 || round == 5;
-            Some(RoundSpec { inject_conflict: inject, peer_own: false, peer_block: false, fork: false, items2: vec![], items: plain_items, gt: if round % 2 == 1 { GtSpec::Valid } else { GtSpec::None }, gap: big, label: if inject { "double-spend-in-pool".to_string() } else { "warm-up".to_string() } })
+            Some(RoundSpec { via_thread: false, inject_conflict: inject, peer_own: false, peer_block: false, fork: false, items2: vec![], items: plain_items, gt: if round % 2 == 1 { GtSpec::Valid } else { GtSpec::None }, gap: big, label: if inject { "double-spend-in-pool".to_string() } else { "warm-up".to_string() } })
+        }
+        // every round through the ConsensusThread (events + timer), gaps on both sides of the work gate
+        16 => {
+            let gap = match round % 4 {
+                0 => (hb / 2) as i64,
+                1 => big,
+                2 => (2 * hb - 1) as i64,
+                _ => big,
+            };
+            let mut items = plain_items;
+            if round == 4 {
+                items.push(Item::Issuance);
+            }
+            Some(RoundSpec { via_thread: true, inject_conflict: false, peer_own: false, peer_block: false, fork: false, items2: vec![], items, gt: if round % 2 == 1 { GtSpec::Valid } else if round == 6 { GtSpec::Invalid } else { GtSpec::None }, gap, label: "through-the-consensus-thread".to_string() })
         }
         // a ticket that solves the tip but names the all-zero key
         14 => {
             let gt = if round == 3 { GtSpec::ZeroKey } else if round % 2 == 1 { GtSpec::Valid } else { GtSpec::None };
-            Some(RoundSpec { inject_conflict: false, peer_own: false, peer_block: false, fork: false, items2: vec![], items: plain_items, gt, gap: big, label: if round == 3 { "zero-key-ticket".to_string() } else { "warm-up".to_string() } })
+            Some(RoundSpec { via_thread: false, inject_conflict: false, peer_own: false, peer_block: false, fork: false, items2: vec![], items: plain_items, gt, gap: big, label: if round == 3 { "zero-key-ticket".to_string() } else { "warm-up".to_string() } })
         }
         // dust genesis: a payer spends a tiny output in the block in which it is due
         9 => {
@@ -1793,7 +2320,7 @@ fn scripted_spec(rig: &Rig, plan: &Plan, round: usize) -> Option<RoundSpec> {
             if rig.rebroadcast_source() == 1 {
                 items.push(Item::Clash { payer: 2, fee: 500 });
             }
-            Some(RoundSpec { inject_conflict: false, peer_own: false, peer_block: false, fork: false, items2: vec![], items, gt: if round % 2 == 1 { GtSpec::Valid } else { GtSpec::None }, gap: big, label: "dust-spend".to_string() })
+            Some(RoundSpec { via_thread: false, inject_conflict: false, peer_own: false, peer_block: false, fork: false, items2: vec![], items, gt: if round % 2 == 1 { GtSpec::Valid } else { GtSpec::None }, gap: big, label: "dust-spend".to_string() })
         }
         // plain deep chain, work decided by the gate (gaps below two heartbeats)
         7 => {
@@ -1803,7 +2330,7 @@ fn scripted_spec(rig: &Rig, plan: &Plan, round: usize) -> Option<RoundSpec> {
                 2 => (2 * hb - 1) as i64,
                 _ => big,
             };
-            Some(RoundSpec { inject_conflict: false, peer_own: false, peer_block: false, fork: false, items2: vec![], items: plain_items, gt: if round % 2 == 1 { GtSpec::Valid } else { GtSpec::None }, gap, label: "work-gated".to_string() })
+            Some(RoundSpec { via_thread: false, inject_conflict: false, peer_own: false, peer_block: false, fork: false, items2: vec![], items: plain_items, gt: if round % 2 == 1 { GtSpec::Valid } else { GtSpec::None }, gap, label: "work-gated".to_string() })
         }
         _ => None,
     }
@@ -1837,7 +2364,9 @@ fn run_scenario(plan: &Plan, debug: bool) -> ScenarioOut {
         };
         let res = rig.exec_round(&spec, &mut rng);
         round += 1;
-        coq.push(format!("({})", res.coq));
+        if !res.coq.is_empty() {
+            coq.push(format!("({})", res.coq));
+        }
         descs.push(res.desc.clone());
         findings.extend(res.findings.clone());
         if res.had_pool && matches!(res.outcome, Outcome::Accepted | Outcome::Rejected | Outcome::Split | Outcome::CreateFailed) {
@@ -1856,10 +2385,12 @@ fn run_scenario(plan: &Plan, debug: bool) -> ScenarioOut {
                 let mut recovered = false;
                 let mut last = res.outcome;
                 for k in 0..3 {
-                    let retry = RoundSpec { inject_conflict: false, peer_own: false, peer_block: false, fork: false, items2: vec![], items: vec![], gt: GtSpec::None, gap: spec.gap.max(1) + 7 * (k + 1), label: format!("retry-{}", k + 1) };
+                    let retry = RoundSpec { via_thread: false, inject_conflict: false, peer_own: false, peer_block: false, fork: false, items2: vec![], items: vec![], gt: GtSpec::None, gap: spec.gap.max(1) + 7 * (k + 1), label: format!("retry-{}", k + 1) };
                     let r = rig.exec_round(&retry, &mut rng);
                     round += 1;
-                    coq.push(format!("({})", r.coq));
+                    if !r.coq.is_empty() {
+                        coq.push(format!("({})", r.coq));
+                    }
                     descs.push(r.desc.clone());
                     findings.extend(r.findings.clone());
                     last = r.outcome;
@@ -1894,8 +2425,10 @@ fn run_scenario(plan: &Plan, debug: bool) -> ScenarioOut {
             }
         }
     }
+    let (vcoq, vfind, vlog) = rig.perturb_subround(&mut rng, if plan.thorough { 16 } else { 8 });
+    findings.extend(vfind);
     let desc = format!(
-        "{{\"scenario_kind\":{},\"seed\":{},\"genesis_period\":{},\"social_stake\":{},\"heartbeat_ms\":{},\"genesis_profile\":{},\"target_blocks\":{},\"final_tip\":{},\"rounds\":[{}]}}",
+        "{{\"scenario_kind\":{},\"seed\":{},\"genesis_period\":{},\"social_stake\":{},\"heartbeat_ms\":{},\"genesis_profile\":{},\"target_blocks\":{},\"final_tip\":{},\"perturbed_copies_of_last_accepted_block\":[{}],\"rounds\":[{}]}}",
         plan.kind,
         plan.seed,
         plan.gp,
@@ -1904,10 +2437,11 @@ fn run_scenario(plan: &Plan, debug: bool) -> ScenarioOut {
         plan.profile,
         plan.target_blocks,
         rig.prod.blockchain.get_latest_block_id(),
+        vlog.join(","),
         descs.join(",")
     );
     rig.stat(&format!("config:gp={}:stake={}:hb={}:profile={}", plan.gp, if plan.stake > 0 { "on" } else { "off" }, plan.hb, plan.profile));
-    ScenarioOut { desc, coq: gal::list(&coq), findings, stats: rig.stats.clone(), nontrivial, rounds: round }
+    ScenarioOut { desc, coq: format!("({}, {})", gal::list(&coq), gal::list(&vcoq)), findings, stats: rig.stats.clone(), nontrivial, rounds: round }
 }
 
 fn main() {
@@ -1927,22 +2461,24 @@ fn main() {
         }
     };
     let mut plans: Vec<Plan> = vec![
-        Plan { kind: 0, seed: 0, gp: 3, stake: 0, hb: 10_000, profile: 1, target_blocks: 14, adversarial: 0 },
-        Plan { kind: 1, seed: 0, gp: 5, stake: 0, hb: 10_000, profile: 0, target_blocks: 8, adversarial: 0 },
-        Plan { kind: 2, seed: 0, gp: 5, stake: 0, hb: 10_000, profile: 0, target_blocks: 6, adversarial: 0 },
-        Plan { kind: 3, seed: 0, gp: 5, stake: 0, hb: 10_000, profile: 0, target_blocks: 6, adversarial: 0 },
-        Plan { kind: 4, seed: 0, gp: 3, stake: 0, hb: 10_000, profile: 0, target_blocks: 10, adversarial: 0 },
-        Plan { kind: 5, seed: 0, gp: 3, stake: 50_000, hb: 10_000, profile: 0, target_blocks: 10, adversarial: 0 },
-        Plan { kind: 6, seed: 0, gp: 5, stake: 50_000, hb: 10_000, profile: 0, target_blocks: 6, adversarial: 0 },
-        Plan { kind: 7, seed: 0, gp: 20, stake: 0, hb: 10_000, profile: 0, target_blocks: 46, adversarial: 0 },
-        Plan { kind: 7, seed: 0, gp: 8, stake: 50_000, hb: 10_000, profile: 0, target_blocks: 20, adversarial: 0 },
-        Plan { kind: 9, seed: 0, gp: 3, stake: 0, hb: 10_000, profile: 1, target_blocks: 8, adversarial: 0 },
-        Plan { kind: 10, seed: 0, gp: 3, stake: 0, hb: 10_000, profile: 0, target_blocks: 9, adversarial: 0 },
-        Plan { kind: 11, seed: 0, gp: 5, stake: 0, hb: 10_000, profile: 0, target_blocks: 12, adversarial: 0 },
-        Plan { kind: 12, seed: 0, gp: 5, stake: 0, hb: 10_000, profile: 0, target_blocks: 14, adversarial: 0 },
-        Plan { kind: 13, seed: 0, gp: 3, stake: 0, hb: 10_000, profile: 0, target_blocks: 12, adversarial: 0 },
-        Plan { kind: 14, seed: 0, gp: 5, stake: 0, hb: 10_000, profile: 0, target_blocks: 7, adversarial: 0 },
-        Plan { kind: 15, seed: 0, gp: 3, stake: 50_000, hb: 10_000, profile: 0, target_blocks: 8, adversarial: 0 },
+        Plan { kind: 0, seed: 0, gp: 3, stake: 0, hb: 10_000, profile: 1, target_blocks: 14, adversarial: 0, thorough: false },
+        Plan { kind: 1, seed: 0, gp: 5, stake: 0, hb: 10_000, profile: 0, target_blocks: 8, adversarial: 0, thorough: false },
+        Plan { kind: 2, seed: 0, gp: 5, stake: 0, hb: 10_000, profile: 0, target_blocks: 6, adversarial: 0, thorough: false },
+        Plan { kind: 3, seed: 0, gp: 5, stake: 0, hb: 10_000, profile: 0, target_blocks: 6, adversarial: 0, thorough: false },
+        Plan { kind: 4, seed: 0, gp: 3, stake: 0, hb: 10_000, profile: 0, target_blocks: 10, adversarial: 0, thorough: false },
+        Plan { kind: 5, seed: 0, gp: 3, stake: 50_000, hb: 10_000, profile: 0, target_blocks: 10, adversarial: 0, thorough: false },
+        Plan { kind: 6, seed: 0, gp: 5, stake: 50_000, hb: 10_000, profile: 0, target_blocks: 6, adversarial: 0, thorough: false },
+        Plan { kind: 7, seed: 0, gp: 20, stake: 0, hb: 10_000, profile: 0, target_blocks: 46, adversarial: 0, thorough: false },
+        Plan { kind: 7, seed: 0, gp: 8, stake: 50_000, hb: 10_000, profile: 0, target_blocks: 20, adversarial: 0, thorough: false },
+        Plan { kind: 9, seed: 0, gp: 3, stake: 0, hb: 10_000, profile: 1, target_blocks: 8, adversarial: 0, thorough: false },
+        Plan { kind: 10, seed: 0, gp: 3, stake: 0, hb: 10_000, profile: 0, target_blocks: 9, adversarial: 0, thorough: false },
+        Plan { kind: 11, seed: 0, gp: 5, stake: 0, hb: 10_000, profile: 0, target_blocks: 12, adversarial: 0, thorough: false },
+        Plan { kind: 12, seed: 0, gp: 5, stake: 0, hb: 10_000, profile: 0, target_blocks: 14, adversarial: 0, thorough: false },
+        Plan { kind: 13, seed: 0, gp: 3, stake: 0, hb: 10_000, profile: 0, target_blocks: 12, adversarial: 0, thorough: false },
+        Plan { kind: 14, seed: 0, gp: 5, stake: 0, hb: 10_000, profile: 0, target_blocks: 7, adversarial: 0, thorough: false },
+        Plan { kind: 15, seed: 0, gp: 3, stake: 50_000, hb: 10_000, profile: 0, target_blocks: 8, adversarial: 0, thorough: false },
+        Plan { kind: 16, seed: 0, gp: 5, stake: 0, hb: 10_000, profile: 0, target_blocks: 16, adversarial: 0, thorough: false },
+        Plan { kind: 16, seed: 0, gp: 3, stake: 50_000, hb: 10_000, profile: 0, target_blocks: 10, adversarial: 0, thorough: false },
     ];
     for _ in 0..nrandom {
         let gp = *rng.pick(&[3u64, 3, 5, 5, 8, 8, 20]);
@@ -1956,7 +2492,7 @@ fn main() {
             _ => (3 * gp + 3).min(2 * gp + 12),
         };
         let adversarial = *rng.pick(&[0u64, 0, 8, 8, 20]);
-        plans.push(Plan { kind: 100, seed: rng.next(), gp, stake, hb, profile, target_blocks: target, adversarial });
+        plans.push(Plan { kind: 100, seed: rng.next(), gp, stake, hb, profile, target_blocks: target, adversarial, thorough: args.tier == "thorough" });
     }
     if !debug {
         std::panic::set_hook(Box::new(|_| {}));
@@ -1996,7 +2532,7 @@ fn main() {
                 if o.nontrivial && distinct.insert(o.coq.clone()) {
                     summary.nontrivial += 1;
                 }
-                if summary.samples.len() < 3 && o.rounds > 3 && idx >= 16 {
+                if summary.samples.len() < 3 && o.rounds > 3 && idx >= 18 {
                     summary.samples.push(o.desc.clone());
                 }
                 summary.case_descs.push(o.desc);
@@ -2014,14 +2550,14 @@ fn main() {
                 let desc = format!("{{\"plan\": {}, \"panic\": {}}}", jstr(&format!("{:?}", plan)), jstr(&msg));
                 summary.oracle_failure(idx, &format!("panic while running the scenario: {}", msg), &desc);
                 summary.case_descs.push(desc);
-                coq_cases.push("[]".to_string());
+                coq_cases.push("([], [])".to_string());
             }
         }
         summary.evaluations += 1;
     }
     let header = "From Saito Require Import Base BurnFee Producer.\n\
-        Definition check (c : list rcase) : bool := check_rcases BurnFee.work_needed c.";
-    let files = gal::write_shards(&format!("{}/cases", args.out), "C07", header, "list rcase", &coq_cases, args.shards).unwrap();
+        Definition check (c : list rcase * list vcase) : bool := check_scenario BurnFee.work_needed c.";
+    let files = gal::write_shards(&format!("{}/cases", args.out), "C07", header, "list rcase * list vcase", &coq_cases, args.shards).unwrap();
     summary.case_files = files;
     summary.write(&args.out);
 }
